@@ -339,7 +339,7 @@ CHECK_FLAGS = ['--slice-formula', '--bounds-check', '--pointer-check', '--signed
                '--div-by-zero-check', '--undefined-shift-check']
 
 
-def run_job(proj, job, workdir, tier='quick', seed=0, only_property=None):
+def run_job(proj, job, workdir, tier='quick', seed=0, only_property=None, noslice=False):
     """returns result dict: status in ok|fail|error|timeout, obligations list"""
     res = dict(job=job.name, func=job.func, status='error', obligations=[], failures=[], wall_s=0.0, solver_s=0.0,
                diag='', backend='cbmc 6.11 SAT (minisat2)', props=sorted(job.props))
@@ -410,13 +410,13 @@ def run_job(proj, job, workdir, tier='quick', seed=0, only_property=None):
         return res
     res['instrument_cmd'] = ' '.join(cmd[:-2])
     json_path = os.path.join(workdir, sub + '.json')
-    cmd = ['cbmc', b_gb] + ([] if job.no_checks else CHECK_FLAGS) + ['--json-ui', '--trace']
+    cmd = ['cbmc', b_gb] + ([] if job.no_checks else [c for c in CHECK_FLAGS if not (noslice and c == '--slice-formula')]) + ['--json-ui', '--trace']
     if job.unwind:
         cmd += ['--unwind', str(job.unwind), '--unwinding-assertions']
         us = dict(SHIM_UNWIND)
         us['vstr_copy_in.0'] = job.strcap + 1
         for k in range(6):
-            us['%s.%d' % (b['entry'], k)] = job.strcap + 1   # the harness' own initialisation loops
+            us['%s.%d' % (b['entry'], k)] = max(job.strcap, job.unwind or 0) + 1   # the harness' own initialisation loops
         us['vstr_find_first_not_of.0'] = job.strcap + 1
         for k, v in (getattr(job, 'unwindset', None) or {}).items():
             us[k] = v
@@ -622,15 +622,16 @@ def expand_cases(job, kf=()):
     return out
 
 
-def requery(proj, job, workdir, prop_id, assume, tier='quick'):
+def requery(proj, job, workdir, prop_id, assume, tier='quick', noslice=True):
     """ask the verifier for another counterexample of one obligation, restricted to `assume`
     (used only to obtain a replayable input; never to decide anything)"""
     import copy
     j = copy.copy(job)
     ea = getattr(job, 'extra_assume', None)
-    j.extra_assume = '(%s) && (%s)' % (ea, assume) if ea else assume
+    if assume:
+        j.extra_assume = '(%s) && (%s)' % (ea, assume) if ea else assume
     j.subname = getattr(job, 'subname', job.name) + '.requery'
-    r = run_job(proj, j, workdir, tier, only_property=prop_id)
+    r = run_job(proj, j, workdir, tier, only_property=prop_id, noslice=noslice)
     for f in r.get('failures', []):
         if f['id'] == prop_id:
             return f
